@@ -397,7 +397,13 @@ func GenRule(ch *core.Chooser, k int, hosts []string, prev []string) string {
 			// in the $domain table
 			return []string{"/ad^", "ad*", "|ws", "=1"}[ch.Intn("rule.shortpat", 4)] + "$domain=" + d
 		case 8:
-			return []string{"/ad^", "/ad^", "ad*", "=1"}[ch.Intn("rule.shortpat", 4)] + "$domain=" + d + "|" + pick(ch, "rule.host3", hosts)
+			a := []string{"/ad^", "/ad^", "ad*", "=1"}[ch.Intn("rule.shortpat", 4)] + "$domain=" + pick(ch, "rule.host3", hosts) + "|" + d
+			if ch.Intn("rule.bucketpair", 2) == 1 {
+				// preceded, in the bucket of d, by a rule that lives in that
+				// bucket only
+				return []string{"|ws", "=1", "/ad^"}[ch.Intn("rule.shortpat2", 3)] + "$domain=" + d + "\n" + a
+			}
+			return a
 		case 9:
 			return "@@/ad^$domain=" + d
 		case 4:
